@@ -8,6 +8,7 @@ import "errors"
 var (
 	errFake                                = errors.New("fake error")
 	errTryAgain                            = errors.New("try again")
+	errPayloadTooLarge                     = errors.New("payload too large")
 	errClosed                              = errors.New("use of closed network connection")
 	errTCPAddrCast                         = errors.New("addr is not a TCP address")
 	errUDPAddrCast                         = errors.New("addr is not a UDP address")
